@@ -1,5 +1,6 @@
 pub mod bash;
 pub mod enumerate;
+pub mod globref;
 pub mod inproc;
 pub mod pool;
 pub mod procs;
